@@ -120,6 +120,17 @@ def gen_plan(seed, tier="quick", variant=None):
                 faults.append({"t": round(rng.random() * horizon, 6), "act": "cut_conns", "node": None})
             elif kind == "refuse":
                 faults.append({"kind": "connect", "nth": rng.randint(0, 8), "what": rng.choice(["refused", "blackhole", "sync_fail"]), "count": rng.choice([1, 3])})
+    if variant in ("faulty", "churn") and rng.random() < 0.3:
+        # the leader's metadata lookup (between the join answer and its SyncGroup) fails: a rebalance is forced and the
+        # metadata answers from then on carry a topic error for a while
+        t_m = round(0.5 + rng.random() * 1.2, 6)
+        phantoms.append({"name": "phm", "topics": names, "session_ms": 1500, "join_t": t_m, "end": rng.choice(["stay", "leave"]), "end_t": 3.0,
+                         "join_delay": rng.choice([0.001, 0.02])})
+        if rng.random() < 0.4:
+            faults.append({"api": 3, "node": None, "nth": 0, "act": "error", "code": rng.choice([5, 3]), "count": rng.choice([1, 2, 4]), "from_t": round(t_m - 0.02, 6)})
+        else:
+            # no broker (nor the bootstrap host) answers metadata requests for a while: the lookup times out everywhere and fails outright
+            faults.append({"api": 3, "node": None, "nth": 0, "act": "silent", "count": rng.choice([nb + 1, 2 * (nb + 1), 4 * (nb + 1)]), "from_t": round(t_m - 0.02, 6)})
     if variant in ("faulty", "churn") and nb > 1 and rng.random() < 0.3:
         # a broker - maybe the coordinator - is taken out of service for good: its requests time out, the coordinator has moved
         faults.append({"t": round(0.5 + rng.random() * 1.5, 6), "act": "retire_broker", "node": rng.randint(1, nb)})
